@@ -3,7 +3,7 @@
 # usage: extract.sh <config-name> <out.json>
 #   config-name: default | norayon | dashu | malachite | num_bigint | dashu_norayon | ... | default_nodebug
 set -u
-CFG="$1"; OUT="$2"
+CFG="$1"; OUT="$(realpath -m "$2")"
 V=/verif
 REPO="${MV_REPO:-/repo}"
 SYSROOT=$(rustc +nightly --print sysroot)
